@@ -27,6 +27,9 @@ From RV Require Import Proofs.UnitsTrip.
 From RV Require Import Gen.TextGuards.
 From RV Require Import Model.TextGuards.
 From RV Require Import Proofs.TextGuards.
+From RV Require Import Gen.StopSites.
+From RV Require Import Model.Stops.
+From RV Require Import Proofs.Stops.
 From Coq Require Import String List Bool ZArith QArith Qabs.
 Import ListNotations.
 Local Open Scope string_scope.
@@ -438,6 +441,19 @@ Theorem C08_text_attr_guards_own : forall a gs, In (a, gs) guard_sites -> gs = [
 Proof. exact no_foreign_guards. Qed.
 Print Assumptions C08_text_attr_guards_own.
 
+(* ---- gradient stops: the stop loop of write_base_grad (Gen/StopSites.v) has nothing that skips or ends an iteration and writes offset,
+   colour and (elided at 1) opacity: every stop of the tree is written, in order, and reads back as itself - ALL stop lists, in particular
+   consecutive stops of one colour (seeded C08-17) *)
+Theorem C08_stops_roundtrip : forall l, Forall2 stop_eq (map read_stop (write_stops l)) l.
+Proof. exact stops_roundtrip. Qed.
+Print Assumptions C08_stops_roundtrip.
+Theorem C08_stops_count : forall l, length (write_stops l) = length l.
+Proof. exact stops_count. Qed.
+Print Assumptions C08_stops_count.
+Theorem C08_stop_fields : chk_stop_fields = true.
+Proof. exact stop_fields_ok. Qed.
+Print Assumptions C08_stop_fields.
+
 (* ---- non-vacuity *)
 Example C08_nv_linejoin : write_LineJoin LineJoin_Bevel = Some "bevel" /\ parse_LineJoin "bevel" = Some LineJoin_Bevel /\
                           write_LineJoin LineJoin_Miter = None /\ default_LineJoin = LineJoin_Miter.
@@ -473,3 +489,6 @@ Example C08_nv_text_guards : (20 <=? length guard_sites)%nat = true /\ length al
                              guard_holds {| has_x := false; has_y := true; on_path := false |} "if let Some(x) = chunk.x" = false /\
                              anchor_written {| has_x := false; has_y := true; on_path := true |} TextAnchor_End = Some "end".
 Proof. repeat split; vm_compute; reflexivity. Qed.
+Example C08_nv_stops : map read_stop (write_stops [(0, 255%N, 1); (3 # 5, 255%N, 1); (1, 16711680%N, 1 # 2)]%Q) =
+                       [(0, 255%N, 1); (3 # 5, 255%N, 1); (1, 16711680%N, 1 # 2)]%Q.
+Proof. vm_compute. reflexivity. Qed.
